@@ -178,6 +178,8 @@ where
     // Prepare the default SolOut (wrapping user callback if provided)
     let n_states = y0.len();
     let mut default_solout = DefaultSolOut::new(f, options.t_eval.clone(), options.dense_output, options.first_step, x0, n_states);
+    #[cfg(feature = "verif-hooks")]
+    default_solout.verif_reserve(8);
 
     // Dispatch by method
     let result = match options.method {
